@@ -1,8 +1,114 @@
+//! aisverif — property-based checks for squidpickles/ais (see /verif/DESIGN.md).
+//!
+//!   aisverif <ID> <quick|thorough>      run the check of one property
+//!   aisverif <ID> --replay <file>       re-execute one saved input, no generation
+//!   aisverif selftest                   self-tests of the reference models
+
+#![allow(dead_code)]
+
+mod adapter;
+mod engine;
+mod gen;
+mod outcome;
+mod props;
+mod refmodel;
+mod typed;
+mod util;
+
+use engine::{infra_error, Ctx, Input, Rec, Tier, Verdict};
+
 fn main() {
-    let mut p = ais_std::AisParser::new();
-    println!("{:?}", p.parse(b"!AIVDM,1,1,,B,E>kb9O9aS@7PUh10dh19@;0Tah2cWrfP:l?M`00003vP100,0*01", true));
-    let mut p = ais_alloc::AisParser::new();
-    println!("{:?}", p.parse(b"!AIVDM,1,1,,B,E>kb9O9aS@7PUh10dh19@;0Tah2cWrfP:l?M`00003vP100,0*01", true));
-    let mut p = ais_none::AisParser::new();
-    println!("{:?}", p.parse(b"!AIVDM,1,1,,B,E>kb9O9aS@7PUh10dh19@;0Tah2cWrfP:l?M`00003vP100,0*01", true));
+    let args: Vec<String> = std::env::args().collect();
+    adapter::install_panic_hook();
+    if args.len() >= 2 && args[1] == "selftest" {
+        match refmodel::selftest() {
+            Ok(()) => {
+                println!("reference models: self-tests passed");
+                return;
+            }
+            Err(e) => infra_error(&format!("reference model self-test failed: {}", e)),
+        }
+    }
+    if args.len() < 3 {
+        eprintln!("usage: aisverif <ID> <quick|thorough> | aisverif <ID> --replay <file> | aisverif selftest");
+        std::process::exit(2);
+    }
+    let prop: &'static str = match props::ALL.iter().find(|p| **p == args[1]) {
+        Some(p) => p,
+        None => infra_error(&format!("unknown property id {}", args[1])),
+    };
+    if let Err(e) = refmodel::selftest() {
+        infra_error(&format!("reference model self-test failed: {}", e));
+    }
+    if args[2] == "--replay" {
+        let file = args.get(3).unwrap_or_else(|| infra_error("--replay needs a file"));
+        std::process::exit(replay(prop, file));
+    }
+    let tier = match std::env::var("VERIF_TIER").ok().as_deref().unwrap_or(args[2].as_str()) {
+        "quick" => Tier::Quick,
+        "thorough" => Tier::Thorough,
+        other => infra_error(&format!("unknown tier {}", other)),
+    };
+    let seed = match std::env::var("VERIF_SEED") {
+        Ok(s) => match s.trim().parse::<u64>() {
+            Ok(0) => 0x5eed_0000_0000_0001,
+            Ok(v) => v,
+            Err(_) => infra_error(&format!("VERIF_SEED is not an unsigned integer: {:?}", s)),
+        },
+        Err(_) => 1,
+    };
+    engine::start_watchdog(prop, tier, seed);
+    let mut ctx = Ctx::new(prop, tier, seed);
+    props::run(prop, &mut ctx);
+    let code = ctx.finish();
+    std::process::exit(code);
+}
+
+fn replay(prop: &'static str, file: &str) -> i32 {
+    let s = std::fs::read_to_string(file).unwrap_or_else(|e| infra_error(&format!("cannot read {}: {}", file, e)));
+    let v: serde_json::Value = serde_json::from_str(&s).unwrap_or_else(|e| infra_error(&format!("bad JSON in {}: {}", file, e)));
+    let input = v.get("input").and_then(Input::from_json).unwrap_or_else(|| infra_error("replay file has no usable input"));
+    let sub = v.get("sub").and_then(|s| s.as_str()).unwrap_or("replay").to_string();
+    let cfgs: Vec<&'static dyn adapter::Config> = match v.get("config").and_then(|c| c.as_str()) {
+        Some("all") | None => adapter::configs().to_vec(),
+        Some(name) => vec![adapter::config_by_name(name).unwrap_or_else(|| infra_error("unknown config in replay file"))],
+    };
+    let check = props::check_fn(prop);
+    let findings = engine::load_findings();
+    let mut failed = false;
+    for cfg in cfgs {
+        let mut rec = Rec::default();
+        rec.want_note = true;
+        let verdict = check(&sub, cfg, &input, &mut rec);
+        println!("replay {} sub-check {} [{}]", prop, sub, cfg.name());
+        println!("  input: {}", util::clip(&input.to_json().to_string(), 3000));
+        if let Some(n) = &rec.note {
+            println!("  outcome: {}", n);
+        }
+        match verdict {
+            Verdict::Pass => println!("  verdict: holds"),
+            Verdict::Excluded(why) => println!("  verdict: outside the property's domain ({})", why),
+            Verdict::Known { sig, expected, observed } => {
+                let listed = findings.iter().any(|f| f.property == prop && f.sig == sig);
+                println!("  expected: {}\n  observed: {}", expected, observed);
+                if listed {
+                    println!("  verdict: fails — known finding {}", sig);
+                } else {
+                    println!("  verdict: FAILS (signature {} is not listed as a finding)", sig);
+                    failed = true;
+                }
+            }
+            Verdict::Fail { expected, observed } => {
+                println!("  expected: {}\n  observed: {}", expected, observed);
+                println!("  verdict: FAILS");
+                failed = true;
+            }
+        }
+    }
+    if failed {
+        println!("VIOLATION property={} replay={}", prop, file);
+        1
+    } else {
+        0
+    }
 }
